@@ -88,8 +88,12 @@ func main() {
 	frodo := flag.Int("frodobits", 400, "sampled single-bit flips for FrodoKEM per key (0 = all)")
 	nmulti := flag.Int("multi", 24, "")
 	list := flag.Bool("list", false, "")
+	hj := flag.String("hashjobs", "", "")
 	flag.Parse()
 	all := allSchemes()
+	if *hj != "" {
+		hashJobs(*hj, *seed, all)
+	}
 	if *list {
 		var names []string
 		for n := range all {
